@@ -170,6 +170,52 @@ Theorem C20_strip_paths : forall (A B : Type) (f : A -> res B) l r, map_res f l 
 Proof. exact (@map_res_Ok). Qed.
 Print Assumptions C20_strip_paths.
 
+(* ---- the PathD (Point<double>) instantiations: StripNearEqual<double> is C20_strip_near_generic at NearEqual<double> *)
+Theorem C20_strip_near_d : forall p maxd closed d,
+  exists r, strip_near_equal_d p maxd closed = Ok r /\
+    sublist r p /\ no_adj_g ptd (fun x y => near_equal_d y x maxd = true) r /\ hd_error r = hd_error p /\
+    (closed = true -> (1 < length r)%nat -> near_equal_d (last r d) (hd d r) maxd = false).
+Proof.
+  exact (fun p maxd closed d =>
+    match strip_near_equal_g_spec ptd (fun a b => near_equal_d a b maxd) p closed d with
+    | ex_intro _ r (conj H1 (conj H2 (conj H3 (conj H4 (conj _ (conj H6 _)))))) =>
+        ex_intro _ r (conj H1 (conj H2 (conj H3 (conj H4 H6))))
+    end).
+Qed.
+Print Assumptions C20_strip_near_d.
+
+Theorem C20_translate_d : forall p dx dy,
+  length (translate_path_d p dx dy) = length p /\
+  forall i, nth_error (translate_path_d p dx dy) i = option_map (fun q => (fst q + dx, snd q + dy)%float) (nth_error p i).
+Proof. exact translate_path_d_spec. Qed.
+Print Assumptions C20_translate_d.
+
+(* TrimCollinear(PathD, precision, open) = descale (TrimCollinear(Path64) (round (path * scale))), scale = 10^precision *)
+Theorem C20_trim_d : forall p scale o,
+  let p64 := map (fun q => (F2I64_round (fst q * scale), F2I64_round (snd q * scale))%float) p in
+  exists r64, trim_collinear p64 o = Ok r64 /\ sublist r64 p64 /\
+    trim_collinear_d p scale o = Ok (map (fun q => (Z2Ff (px q) * (1 / scale), Z2Ff (py q) * (1 / scale))%float) r64).
+Proof.
+  exact (fun p scale o =>
+    match trim_collinear_d_spec (fun p o => match trim_total_subseq p o with ex_intro _ r (conj H _) => ex_intro _ r H end) p scale o with
+    | ex_intro _ r (conj H1 H2) => ex_intro _ r (conj H1 (conj (trim_subseq _ _ _ H1) H2))
+    end).
+Qed.
+Print Assumptions C20_trim_d.
+
+(* Ellipse(Rect, steps) = Ellipse(MidPoint, Width / 2, Height / 2, steps) *)
+Theorem C20_ellipse_rect : forall l t r b steps si co,
+  ellipse_rect_i l t r b steps si co =
+  ellipse_i (Z.quot (l + r) 2, Z.quot (t + b) 2) (Z2Ff (r - l) * 0.5)%float (Z2Ff (b - t) * 0.5)%float steps si co.
+Proof. exact ellipse_rect_i_spec. Qed.
+Print Assumptions C20_ellipse_rect.
+
+Theorem C20_ellipse_rect_d : forall l t r b steps si co,
+  ellipse_rect_d l t r b steps si co =
+  ellipse_d ((l + r) / 2)%float ((t + b) / 2)%float ((r - l) * 0.5)%float ((b - t) * 0.5)%float steps si co.
+Proof. exact ellipse_rect_d_spec. Qed.
+Print Assumptions C20_ellipse_rect_d.
+
 Theorem C20_translate : forall p dx dy,
   length (translate_path p dx dy) = length p /\
   forall i, nth_error (translate_path p dx dy) i = option_map (fun q => (px q + dx, py q + dy)%Z) (nth_error p i).
